@@ -20,11 +20,12 @@ def tree_of(fn):
     return t
 
 
-def slicer_of(fn):
-    s = fn.get("_slicer")
+def slicer_of(fn, control=False):
+    key = "_slicer_c" if control else "_slicer"
+    s = fn.get(key)
     if s is None:
-        s = slicer.Slicer(fn)
-        fn["_slicer"] = s
+        s = slicer.Slicer(fn, control=control)
+        fn[key] = s
     return s
 
 
@@ -111,7 +112,7 @@ def check_seeds(ctx, facts, rule, table):
     n_sites = 0
     for fid, rows in table.items():
         fn = facts.fn(fid)
-        sl = slicer_of(fn)
+        sl = slicer_of(fn, control=True)
         sites = seed_sites(fn)
         used = [0] * len(rows)
         for s in sites:
